@@ -175,7 +175,7 @@ def EXP(number):
     number = utils.parse_number(number)
     if isinstance(number, error.XLError):
         return number
-    return math.e**number
+    return math.exp(number)  # math.e**number is hundreds of units in the last place off for large arguments
 
 
 @dispatcher.register_for('LN')
